@@ -43,6 +43,7 @@ pub const RULES: &[(&str, &[&str])] = &[
     ("callback.while_disabled", &["C01", "C07"]),
     ("callback.never_inserted", &["C01", "C15"]),
     ("callback.wrong_data", &["C01"]),
+    ("composite.event_for_wrong_child", &["C01"]),
     ("ping.callback_without_ping", &["C01", "C03"]),
     ("ping.two_callbacks_one_dispatch", &["C03"]),
     ("ping.not_removed_after_close", &["C03", "C06"]),
